@@ -52,10 +52,15 @@ class FakeRandom:
     def __init__(self):
         self.queue = []
         self.used = 0
+        self.strict = False
+        self.fallback = 9 * 10 ** 8
 
     def randint(self, a, b):
         if not self.queue:
-            raise OutOfDraws()
+            if self.strict:
+                raise OutOfDraws()
+            self.fallback += 1000
+            return self.fallback
         self.used += 1
         return self.queue.pop(0)
 
@@ -301,6 +306,9 @@ class Real:
                 self.stack.pop()
                 self.snap.pop()
                 return r
+            if c in ('begin', 'pack') and top.tpc_transaction() is not None and (
+                    c == 'pack' or top.tpc_transaction() is not self.txn(t[1])):
+                return 'err:Blocked'                  # would block on the commit lock (ill-formed sequence)
             if c == 'begin':
                 if t[2] == '-':                       # tid from the (scripted) clock
                     import time
@@ -342,11 +350,15 @@ class Real:
                 draws = [] if t[1] == '-' else [int(x) for x in t[1].split(',')]
                 FAKE.queue = list(draws)
                 FAKE.used = 0
+                FAKE.strict = True
                 try:
                     oid = u64(top.new_oid())
                     r = 'oid=%d used=%d' % (oid, FAKE.used)
                 except OutOfDraws:
                     r = 'oid=- used=%d' % FAKE.used
+                finally:
+                    FAKE.strict = False
+                    FAKE.queue = []
                 return r + self.check_lower()
             if c == 'lb':
                 r = top.loadBefore(p64(int(t[1])), real_tid(t[2]))
@@ -574,7 +586,7 @@ class World:
         P = self.packed()
         if c == 'lb':
             o, b = int(t[1]), (MAXT if t[2] == 'max' else int(t[2]))
-            if b <= P:
+            if P and b <= P:
                 return None
             r = self.revs(o)
             if not r:
@@ -762,7 +774,7 @@ class Gen:
                 self.emit('vote %d' % x)
                 self.emit('finish %d' % x)
                 return
-        cands = list(self.pool) + sorted(lv.issued)
+        cands = sorted(set(self.pool) | lv.issued)
         n = rng.choice([1, 1, 2, 2, 3])
         chosen = rng.sample(cands, min(n, len(cands)))
         stored = 0
@@ -903,9 +915,14 @@ def gen_case(rng, thorough):
 
 
 # ---------------------------------------------------------------- excluded points (probes)
-def commit(s, tid, recs=(), undo=None):
+def commit(s, tid, recs=(), undo=None, explicit_none=False):
     t = TransactionMetaData()
-    s.tpc_begin(t, p64(tid) if tid is not None else None)
+    if tid is not None:
+        s.tpc_begin(t, p64(tid))
+    elif explicit_none:
+        s.tpc_begin(t, None)
+    else:
+        s.tpc_begin(t)
     for oid, ser, v in recs:
         s.store(p64(oid), ser if isinstance(ser, bytes) else p64(ser), pickle_of(v), '', t)
     if undo:
@@ -914,8 +931,9 @@ def commit(s, tid, recs=(), undo=None):
     return s.tpc_finish(t)
 
 
-def probe_tid_below_base(tmp, rng):
-    """base ahead of the clock; the demo storage commits with clock tids (no explicit tid)"""
+def probe_tid_below_base(tmp, rng, explicit_none=False):
+    """base ahead of the clock; the demo storage commits with clock tids (no explicit tid, or -- second
+    variant -- `tid=None` passed positionally as the IStorage signature allows)"""
     import clock
     ahead = rng.choice([3600.0, 86400.0, 1e8])
     with clock.scripted(start=1_700_000_000.0 + ahead):
@@ -924,7 +942,7 @@ def probe_tid_below_base(tmp, rng):
         tb = commit(base, None, [(1, base.lastTransaction(), 3), (2, 0, 4)])
     with clock.scripted(start=1_700_000_000.0):
         demo = DemoStorage(base=base, changes=MappingStorage())
-        tc = commit(demo, None, [(0, demo.load(p64(0))[1], 5)])
+        tc = commit(demo, None, [(0, demo.load(p64(0))[1], 5)], explicit_none=explicit_none)
     bad = None
     snap = p64(u64(demo.lastTransaction()) + 1)
     got = demo.loadBefore(p64(2), snap)
@@ -1104,6 +1122,14 @@ def main(argv=None):
             ck.count('probe:tid-below-base')
             if bad:
                 ck.violation('C16:demo-tid-below-base', bad, dict(probe='tid-below-base', **info))
+        if want('tid-below-base-explicit-none'):
+            bad, info = probe_tid_below_base(ck.tmp, ck.rng, explicit_none=True)
+            excluded['TidOrdered violated (base ahead of the clock, tpc_begin(txn, None))'] = \
+                bad or 'no wrong answer observed'
+            ck.count('probe:tid-below-base-explicit-none')
+            if bad:
+                ck.violation('C16:demo-tid-below-base-explicit-none', 'tpc_begin(txn, None): ' + bad,
+                             dict(probe='tid-below-base-explicit-none', **info))
         if want('undo-over-base'):
             a, b = probe_undo_over_base(ck.tmp, ck.rng)
             excluded['un-creation written over a base object (undo of its first change)'] = [a, b]
